@@ -1979,6 +1979,9 @@ package ast
 
 // ---- WorkingMemory.MakeCatalog (C12): the three snapshot maps are stored key for key, each value the AstID of the node filed
 // under that key; name and version are stored. (The two index maps are rebuilt by loops 4-7; only their frames are checked.)
+//@ macro func varIdsDistinct() bool { return forall v1 *Variable, v2 *Variable {v1.AstID, v2.AstID} :: v1 != v2 ==> v1.AstID != v2.AstID }
+//@ macro func wmD(workingMem *WorkingMemory, cat *Catalog) bool { return (forall v *Variable :: has(workingMem.expressionVariableMap, v) ==> has(cat.MemoryExpressionVariableMap, v.AstID) && len(cat.MemoryExpressionVariableMap[v.AstID]) == len(workingMem.expressionVariableMap[v]) && (forall n int :: 0 <= n && n < len(workingMem.expressionVariableMap[v]) ==> cat.MemoryExpressionVariableMap[v.AstID][n] == workingMem.expressionVariableMap[v][n].AstID)) }
+//@ macro func wmE(workingMem *WorkingMemory, cat *Catalog) bool { return (forall v *Variable :: has(workingMem.expressionAtomVariableMap, v) ==> has(cat.MemoryExpressionAtomVariableMap, v.AstID) && len(cat.MemoryExpressionAtomVariableMap[v.AstID]) == len(workingMem.expressionAtomVariableMap[v]) && (forall n int :: 0 <= n && n < len(workingMem.expressionAtomVariableMap[v]) ==> cat.MemoryExpressionAtomVariableMap[v.AstID][n] == workingMem.expressionAtomVariableMap[v][n].AstID)) }
 //@ macro func wmA(workingMem *WorkingMemory, cat *Catalog) bool { return (forall k string :: has(cat.MemoryExpressionSnapshotMap, k) == has(workingMem.expressionSnapshotMap, k)) && (forall k string :: has(workingMem.expressionSnapshotMap, k) ==> cat.MemoryExpressionSnapshotMap[k] == workingMem.expressionSnapshotMap[k].AstID) }
 //@ macro func wmB(workingMem *WorkingMemory, cat *Catalog) bool { return (forall k string :: has(cat.MemoryExpressionAtomSnapshotMap, k) == has(workingMem.expressionAtomSnapshotMap, k)) && (forall k string :: has(workingMem.expressionAtomSnapshotMap, k) ==> cat.MemoryExpressionAtomSnapshotMap[k] == workingMem.expressionAtomSnapshotMap[k].AstID) }
 //@ macro func wmC(workingMem *WorkingMemory, cat *Catalog) bool { return (forall k string :: has(cat.MemoryVariableSnapshotMap, k) == has(workingMem.variableSnapshotMap, k)) && (forall k string :: has(workingMem.variableSnapshotMap, k) ==> cat.MemoryVariableSnapshotMap[k] == workingMem.variableSnapshotMap[k].AstID) }
@@ -1986,11 +1989,18 @@ package ast
 //@   serves C12
 //@   opt alloc=1
 //@   requires workingMem != nil && cat != nil
+// T-UUID: different variables carry different AstIDs (the index is stored under the variable's id)
+//@   requires varIdsDistinct()
 //@   modifies Catalog.*, alloc, $allocated, map[string]string, map[string][]string
 //@   invariant@1[C12] a: cat.MemoryExpressionSnapshotMap != nil && fresh(cat.MemoryExpressionSnapshotMap) && (forall j int {$keys[j]} :: 0 <= j && j < $i ==> has(cat.MemoryExpressionSnapshotMap, $keys[j]) && cat.MemoryExpressionSnapshotMap[$keys[j]] == workingMem.expressionSnapshotMap[$keys[j]].AstID) && (forall k string :: has(cat.MemoryExpressionSnapshotMap, k) ==> has(workingMem.expressionSnapshotMap, k))
 //@   invariant@2[C12] ab: wmA(workingMem, cat) && cat.MemoryExpressionAtomSnapshotMap != cat.MemoryExpressionSnapshotMap && cat.MemoryExpressionAtomSnapshotMap != nil && fresh(cat.MemoryExpressionAtomSnapshotMap) && (forall j int {$keys[j]} :: 0 <= j && j < $i ==> has(cat.MemoryExpressionAtomSnapshotMap, $keys[j]) && cat.MemoryExpressionAtomSnapshotMap[$keys[j]] == workingMem.expressionAtomSnapshotMap[$keys[j]].AstID) && (forall k string :: has(cat.MemoryExpressionAtomSnapshotMap, k) ==> has(workingMem.expressionAtomSnapshotMap, k))
 //@   invariant@3[C12] abc: wmA(workingMem, cat) && wmB(workingMem, cat) && cat.MemoryVariableSnapshotMap != cat.MemoryExpressionSnapshotMap && cat.MemoryVariableSnapshotMap != cat.MemoryExpressionAtomSnapshotMap && cat.MemoryVariableSnapshotMap != nil && fresh(cat.MemoryVariableSnapshotMap) && (forall j int {$keys[j]} :: 0 <= j && j < $i ==> has(cat.MemoryVariableSnapshotMap, $keys[j]) && cat.MemoryVariableSnapshotMap[$keys[j]] == workingMem.variableSnapshotMap[$keys[j]].AstID) && (forall k string :: has(cat.MemoryVariableSnapshotMap, k) ==> has(workingMem.variableSnapshotMap, k))
+//@   invariant@4[C12] idxE: wmA(workingMem, cat) && wmB(workingMem, cat) && wmC(workingMem, cat) && cat.MemoryExpressionVariableMap != nil && fresh(cat.MemoryExpressionVariableMap) && (forall j int {$keys[j]} :: 0 <= j && j < $i ==> has(cat.MemoryExpressionVariableMap, as($keys[j], *Variable).AstID) && len(cat.MemoryExpressionVariableMap[as($keys[j], *Variable).AstID]) == len(workingMem.expressionVariableMap[as($keys[j], *Variable)]) && (forall n int :: 0 <= n && n < len(workingMem.expressionVariableMap[as($keys[j], *Variable)]) ==> cat.MemoryExpressionVariableMap[as($keys[j], *Variable).AstID][n] == workingMem.expressionVariableMap[as($keys[j], *Variable)][n].AstID))
+//@   invariant@5[C12] idxEin: wmA(workingMem, cat) && wmB(workingMem, cat) && wmC(workingMem, cat) && cat.MemoryExpressionVariableMap != nil && fresh(cat.MemoryExpressionVariableMap) && (forall j int {$keys4[j]} :: 0 <= j && j < $i4 ==> has(cat.MemoryExpressionVariableMap, as($keys4[j], *Variable).AstID) && len(cat.MemoryExpressionVariableMap[as($keys4[j], *Variable).AstID]) == len(workingMem.expressionVariableMap[as($keys4[j], *Variable)]) && (forall n int :: 0 <= n && n < len(workingMem.expressionVariableMap[as($keys4[j], *Variable)]) ==> cat.MemoryExpressionVariableMap[as($keys4[j], *Variable).AstID][n] == workingMem.expressionVariableMap[as($keys4[j], *Variable)][n].AstID)) && has(cat.MemoryExpressionVariableMap, key.AstID) && len(cat.MemoryExpressionVariableMap[key.AstID]) == len(value) && (forall n int :: 0 <= n && n < $i ==> cat.MemoryExpressionVariableMap[key.AstID][n] == value[n].AstID)
+//@   invariant@6[C12] idxA: wmA(workingMem, cat) && wmB(workingMem, cat) && wmC(workingMem, cat) && wmD(workingMem, cat) && cat.MemoryExpressionAtomVariableMap != cat.MemoryExpressionVariableMap && cat.MemoryExpressionAtomVariableMap != nil && fresh(cat.MemoryExpressionAtomVariableMap) && (forall j int {$keys[j]} :: 0 <= j && j < $i ==> has(cat.MemoryExpressionAtomVariableMap, as($keys[j], *Variable).AstID) && len(cat.MemoryExpressionAtomVariableMap[as($keys[j], *Variable).AstID]) == len(workingMem.expressionAtomVariableMap[as($keys[j], *Variable)]) && (forall n int :: 0 <= n && n < len(workingMem.expressionAtomVariableMap[as($keys[j], *Variable)]) ==> cat.MemoryExpressionAtomVariableMap[as($keys[j], *Variable).AstID][n] == workingMem.expressionAtomVariableMap[as($keys[j], *Variable)][n].AstID))
+//@   invariant@7[C12] idxAin: wmA(workingMem, cat) && wmB(workingMem, cat) && wmC(workingMem, cat) && wmD(workingMem, cat) && cat.MemoryExpressionAtomVariableMap != cat.MemoryExpressionVariableMap && cat.MemoryExpressionAtomVariableMap != nil && fresh(cat.MemoryExpressionAtomVariableMap) && (forall j int {$keys6[j]} :: 0 <= j && j < $i6 ==> has(cat.MemoryExpressionAtomVariableMap, as($keys6[j], *Variable).AstID) && len(cat.MemoryExpressionAtomVariableMap[as($keys6[j], *Variable).AstID]) == len(workingMem.expressionAtomVariableMap[as($keys6[j], *Variable)]) && (forall n int :: 0 <= n && n < len(workingMem.expressionAtomVariableMap[as($keys6[j], *Variable)]) ==> cat.MemoryExpressionAtomVariableMap[as($keys6[j], *Variable).AstID][n] == workingMem.expressionAtomVariableMap[as($keys6[j], *Variable)][n].AstID)) && has(cat.MemoryExpressionAtomVariableMap, key.AstID) && len(cat.MemoryExpressionAtomVariableMap[key.AstID]) == len(value) && (forall n int :: 0 <= n && n < $i ==> cat.MemoryExpressionAtomVariableMap[key.AstID][n] == value[n].AstID)
 //@   ensures[C12] header: cat.MemoryName == workingMem.Name && cat.MemoryVersion == workingMem.Version
+//@   ensures[C12] indexmaps: wmD(workingMem, cat) && wmE(workingMem, cat)
 //@   ensures kbheaderkept: cat.KnowledgeBaseName == old(cat.KnowledgeBaseName) && cat.KnowledgeBaseVersion == old(cat.KnowledgeBaseVersion) && cat.Data == old(cat.Data)
 //@   ensures othercatalogs: forall c *Catalog :: c != cat ==> c.KnowledgeBaseName == old(c.KnowledgeBaseName) && c.KnowledgeBaseVersion == old(c.KnowledgeBaseVersion) && c.Data == old(c.Data) && c.MemoryName == old(c.MemoryName) && c.MemoryVersion == old(c.MemoryVersion) && c.MemoryVariableSnapshotMap == old(c.MemoryVariableSnapshotMap) && c.MemoryExpressionSnapshotMap == old(c.MemoryExpressionSnapshotMap) && c.MemoryExpressionAtomSnapshotMap == old(c.MemoryExpressionAtomSnapshotMap) && c.MemoryExpressionVariableMap == old(c.MemoryExpressionVariableMap) && c.MemoryExpressionAtomVariableMap == old(c.MemoryExpressionAtomVariableMap)
 //@   ensures[C12] snapshotmaps: wmA(workingMem, cat) && wmB(workingMem, cat) && wmC(workingMem, cat)
@@ -1999,19 +2009,20 @@ package ast
 //@ func (e *KnowledgeBase) MakeCatalog() (c)
 //@   serves C12
 //@   opt alloc=1
-//@   requires e != nil && e.WorkingMemory != nil
+//@   requires e != nil && e.WorkingMemory != nil && varIdsDistinct()
 //@   requires forall k string :: has(e.RuleEntries, k) ==> e.RuleEntries[k] != nil
 //@   modifies $catAddN, alloc, $allocated, RuleEntryMeta.*, fresh Catalog.*, map[string]string, map[string][]string
 //@   invariant@1 shape: fresh(catalog) && catalog.KnowledgeBaseName == e.Name && catalog.KnowledgeBaseVersion == e.Version && e.WorkingMemory != nil && e.WorkingMemory == old(e.WorkingMemory)
 //@   ensures[C12] header: c != nil && c.KnowledgeBaseName == e.Name && c.KnowledgeBaseVersion == e.Version && c.MemoryName == e.WorkingMemory.Name && c.MemoryVersion == e.WorkingMemory.Version
 //@   ensures[C12] snapshotmaps: wmA(e.WorkingMemory, c) && wmB(e.WorkingMemory, c) && wmC(e.WorkingMemory, c)
+//@   ensures[C12] indexmaps: wmD(e.WorkingMemory, c) && wmE(e.WorkingMemory, c)
 // (AddMeta files non-nil records: the node-level MakeCatalog functions are thin contracts, so this is ASSUMED here)
 //@   trusted_ensures forall k string :: has(c.Data, k) ==> c.Data[k] != nil
 // a failing writer always surfaces (the catalogue is made first, then written; nothing else can fail)
 //@ func (lib *KnowledgeLibrary) StoreKnowledgeBaseToWriter(writer, name, version) (err)
 //@   serves C12
 //@   opt alloc=1
-//@   requires libWF(lib) && writer != nil
+//@   requires libWF(lib) && writer != nil && varIdsDistinct()
 //@   modifies *, @wstream, $catAddN, $allocated
 //@   ensures[C12] errorsurfaces: ($wErrN > old($wErrN)) == (err != nil)
 // an instance exists exactly for a (name, version) the library holds; it is the blueprint's clone under a NEW clone table
